@@ -299,8 +299,9 @@ func (w *rsWorld) start() {
 			&sync.RetryHandler{RetryAfterErrorPeriod: time.Millisecond, MaxRetryAttemptsAfterError: -1}, false)
 		must(err)
 		s.drv = drv
-		s.done = make(chan struct{})
-		go func(s *rsSub) { drv.Sync(ctx); close(s.done) }(s)
+		done := make(chan struct{})
+		s.done = done
+		go func() { drv.Sync(ctx); close(done) }()
 		w.waitRun(s, 0)
 		w.checkResume(s, "after a (re)start")
 	}
@@ -655,6 +656,9 @@ func (w *rsWorld) exec(line string) string {
 	case "race": // directed schedule for known finding F5, in a world of its own
 		w.raceExperiment()
 		return "race done"
+	case "crashtrack": // directed schedule: stopped between tracking a block and storing it, the block replaced meanwhile
+		w.crashTrackExperiment()
+		return "crashtrack done"
 	case "restart", "restart!":
 		if ws[0] == "restart!" {
 			w.failLPBNext = 1 + len(w.lines)%2 // the first read(s) of the marker fail: the driver must retry, not assume an empty store
@@ -778,6 +782,69 @@ func (w *rsWorld) raceExperiment() {
 	}
 }
 
+// The node is stopped after the driver has had block N tracked and before N is stored (its ProcessBlock keeps failing until
+// the stop); while it is down the chain replaces N; after the restart the driver downloads the new N and handles it. The
+// detector must then hold the NEW hash for N: with the old one the next pass "detects" a reorg of a block that is canonical
+// and rewinds a syncer none of whose blocks was replaced.
+func (w *rsWorld) crashTrackExperiment() {
+	x := &rsWorld{r: w.r}
+	defer x.close()
+	dir, err := os.MkdirTemp(w.r.OutDir, "rscrash")
+	must(err)
+	x.dir = dir
+	x.chain = &rsChain{nextV: map[uint64]int{}}
+	x.hashOf = map[common.Hash]string{}
+	x.subs = []*rsSub{{id: "A", path: filepath.Join(dir, "A.sqlite")}}
+	x.start()
+	for i := 0; i < 3; i++ {
+		x.exec("blk 0")
+	}
+	x.exec("step A 2")
+	s := x.subs[0]
+	// block 3: tracked, then every ProcessBlock attempt fails until the node is stopped
+	s.rw.mu.Lock()
+	s.rw.failPB = 1 << 30
+	s.rw.mu.Unlock()
+	s.dl.mu.Lock()
+	run := s.dl.cur
+	s.dl.mu.Unlock()
+	reply := make(chan bool)
+	run.permits <- reply
+	<-reply
+	deadline := time.Now().Add(5 * time.Second)
+	for len(x.tracked(s)) < 3 && time.Now().Before(deadline) {
+		time.Sleep(time.Millisecond)
+	}
+	if len(x.tracked(s)) < 3 {
+		w.r.Notes = append(w.r.Notes, "crashtrack: block 3 was not tracked before its ProcessBlock")
+		return
+	}
+	s.rw.mu.Lock()
+	s.rw.dead = true // the driver of the stopped node: its retries keep failing, it is left behind
+	s.rw.mu.Unlock()
+	x.stop()
+	x.exec("reorg 3") // block 3 is replaced while the node is down
+	x.exec("blk 0")
+	x.start()
+	s = x.subs[0]
+	x.exec("step A 1")
+	st, tr := x.stored(s), x.tracked(s)
+	w.r.Evals++
+	has := func(l []string, v string) bool {
+		for _, e := range l {
+			if e == v {
+				return true
+			}
+		}
+		return false
+	}
+	if has(st, "3.2") && !has(tr, "3.2") {
+		w.r.Fail("[C06] stopped between tracking block 3 and storing it, block 3 replaced meanwhile: after the restart the new block 3.2 is processed (store "+lst(st)+") but the detector still holds the old hash for it (tracked "+lst(tr)+"): the next pass rewinds a syncer none of whose blocks was replaced",
+			[]string{"crashtrack"})
+	}
+	w.r.Count("directed:crash-between-track-and-store")
+}
+
 func rsWrap(p *bridgesync.VerifProcessor, rw *rsRewinds) *rsProcWrap {
 	return &rsProcWrap{rsFull: p.P, rw: rw}
 }
@@ -795,6 +862,7 @@ func rsGen(r *Run, rng *Rng) {
 	defer w.close()
 	defer func() {
 		r.Emit("race", w.exec("race"))
+		r.Emit("crashtrack", w.exec("crashtrack"))
 	}()
 	nw, steps := 10, 40
 	if r.Tier == "thorough" {
